@@ -35,7 +35,54 @@ func isBodyClose(info *types.Info, n ast.Node) bool {
 			}
 		}
 	}
+	// an unexported helper of the package that does nothing but close the closer it is handed
+	// (straight-line: its statements are calls, one of which closes that parameter)
+	if fn := callee(info, call); fn != nil && !fn.Exported() && declResolver != nil {
+		if d := declResolver(fn.Origin()); d != nil && d.Decl.Body != nil && d.Pkg.TypesInfo == info {
+			i := 0
+			for _, f := range d.Decl.Type.Params.List {
+				for _, nm := range f.Names {
+					if i < len(call.Args) {
+						if sel, ok := ast.Unparen(call.Args[i]).(*ast.SelectorExpr); ok && sel.Sel.Name == "Body" {
+							if closesParam(info, d.Decl, info.ObjectOf(nm)) {
+								return true
+							}
+						}
+					}
+					i++
+				}
+			}
+		}
+	}
 	return false
+}
+
+// closesParam: fd is straight-line and one of its statements closes the parameter p, directly or
+// through the helper package's close-and-log functions.
+func closesParam(info *types.Info, fd *ast.FuncDecl, p types.Object) bool {
+	closes := false
+	for _, st := range fd.Body.List {
+		es, ok := st.(*ast.ExprStmt)
+		if !ok {
+			return false
+		}
+		call, ok := es.X.(*ast.CallExpr)
+		if !ok {
+			return false
+		}
+		if sel, ok := call.Fun.(*ast.SelectorExpr); ok && sel.Sel.Name == "Close" {
+			if id, ok := ast.Unparen(sel.X).(*ast.Ident); ok && info.ObjectOf(id) == p {
+				closes = true
+			}
+		}
+		name := calleeName(info, call)
+		if (strings.HasSuffix(name, "helper.CloseAndLogError") || strings.HasSuffix(name, "helper.CloseAndLogErrorWithLogger")) && len(call.Args) > 0 {
+			if id, ok := ast.Unparen(call.Args[0]).(*ast.Ident); ok && info.ObjectOf(id) == p {
+				closes = true
+			}
+		}
+	}
+	return closes
 }
 
 // goInfo resolves an identifier to its object in whichever package it belongs to (set by NewCtx).
@@ -293,7 +340,13 @@ func CheckC19(c *Ctx) {
 					if fn := callee(hinfo, call); fn != nil && !fn.Exported() {
 						if d := c.P.Decls[fn.Origin()]; d != nil && d.Decl.Body != nil {
 							for j, a := range call.Args {
-								if !strings.Contains(exprString(a), "json.Delim('[')") {
+								isOpen := strings.Contains(exprString(a), "json.Delim('[')")
+								if tv, has := hinfo.Types[a]; has && tv.Value != nil && tv.Value.Kind() == constant.Int {
+									if v, exact := constant.Int64Val(tv.Value); exact && v == '[' {
+										isOpen = true // the constant '[' converted to the delimiter type by the parameter
+									}
+								}
+								if !isOpen {
 									continue
 								}
 								pi := 0
@@ -744,6 +797,27 @@ func (c *Ctx) getSinceFilter(fi *load.FuncInfo) {
 			return true
 		}
 		fl, ok := call.Args[1].(*ast.FuncLit)
+		if !ok {
+			// the predicate may be made by an unexported function handed the bound: isOnOrAfter(date),
+			// whose body is `return func(s *Snapshot) bool {...}` over its own parameter
+			if mk, isCall := ast.Unparen(call.Args[1]).(*ast.CallExpr); isCall && len(mk.Args) == 1 {
+				if aid, isID := ast.Unparen(mk.Args[0]).(*ast.Ident); isID && info.ObjectOf(aid) == bound {
+					if fn := callee(info, mk); fn != nil && !fn.Exported() {
+						if d := c.P.Decls[fn.Origin()]; d != nil && d.Decl.Body != nil && len(d.Decl.Body.List) == 1 && d.Pkg.TypesInfo == info {
+							if r, isRet := d.Decl.Body.List[0].(*ast.ReturnStmt); isRet && len(r.Results) == 1 {
+								if lit, isLit := r.Results[0].(*ast.FuncLit); isLit {
+									if pb := paramAt(info, d.Decl, 0); pb != nil {
+										if pv, isVar := pb.(*types.Var); isVar {
+											fl, ok, bound = lit, true, pv
+										}
+									}
+								}
+							}
+						}
+					}
+				}
+			}
+		}
 		if !ok {
 			// the predicate may be a local bound once to a function literal: sinceDate := func(...) bool {...}
 			if id, isID := call.Args[1].(*ast.Ident); isID {
@@ -2009,4 +2083,17 @@ func idxLenCond(info *types.Info, cond ast.Expr, idxText, rec string, I, L int64
 		}
 	}
 	return false, false
+}
+
+func paramAt(info *types.Info, fd *ast.FuncDecl, i int) types.Object {
+	k := 0
+	for _, f := range fd.Type.Params.List {
+		for _, nm := range f.Names {
+			if k == i {
+				return info.ObjectOf(nm)
+			}
+			k++
+		}
+	}
+	return nil
 }
